@@ -1276,7 +1276,7 @@ fn do_sync(ctx: &Ctx, op: &Op) -> Out {
         Op::RemoveHashMulti { addr, also } => unit(cacache::remove_hash_sync(cache, &two_hash(ctx, *addr, *also))),
         Op::Abandon { spec, at } => do_abandon_sync(ctx, spec, *at),
         Op::TwoWriters { a, b, plan } => do_two_sync(ctx, a, b, *plan),
-        Op::DamageContent { .. } | Op::DamageBucket { .. } | Op::ForeignRecord { .. } | Op::Chdir { .. } | Op::PlantRecord { .. } | Op::TmpElsewhere | Op::RemoveTarget { .. } | Op::SwitchCache | Op::AgeCache { .. } => unreachable!(),
+        Op::DamageContent { .. } | Op::DamageBucket { .. } | Op::ForeignRecord { .. } | Op::Chdir { .. } | Op::PlantRecord { .. } | Op::TmpElsewhere | Op::RemoveTarget { .. } | Op::SwitchCache | Op::AgeCache { .. } | Op::ForeignTombstone { .. } => unreachable!(),
     }
 }
 
@@ -1401,7 +1401,7 @@ async fn do_async(ctx: &Ctx<'_>, op: &Op) -> Out {
         Op::RemoveHashMulti { addr, also } => unit(cacache::remove_hash(cache, &two_hash(ctx, *addr, *also)).await),
         Op::Abandon { spec, at } => do_abandon_async(ctx, spec, *at).await,
         Op::TwoWriters { a, b, plan } => do_two_async(ctx, a, b, *plan).await,
-        Op::DamageContent { .. } | Op::DamageBucket { .. } | Op::ForeignRecord { .. } | Op::Chdir { .. } | Op::PlantRecord { .. } | Op::TmpElsewhere | Op::RemoveTarget { .. } | Op::SwitchCache | Op::AgeCache { .. } => unreachable!(),
+        Op::DamageContent { .. } | Op::DamageBucket { .. } | Op::ForeignRecord { .. } | Op::Chdir { .. } | Op::PlantRecord { .. } | Op::TmpElsewhere | Op::RemoveTarget { .. } | Op::SwitchCache | Op::AgeCache { .. } | Op::ForeignTombstone { .. } => unreachable!(),
     }
 }
 
@@ -1649,6 +1649,15 @@ pub fn do_harness_side(ctx: &Ctx, op: &Op) -> Out {
             let d = ctx.scratch.join("cwd").join(format!("d{dir}"));
             let _ = std::fs::create_dir_all(&d);
             let _ = std::env::set_current_dir(&d);
+            Out::Done
+        }
+        Op::ForeignTombstone { bucket_of, key } => {
+            let p = reffmt::bucket_path(&ctx.cache, ctx.key(*bucket_of));
+            let rec = reffmt::Rec { key: ctx.key(*key).to_string(), integrity: None, time: 8, size: 0, metadata: reffmt::Json::Null, raw_metadata: None };
+            let _ = std::fs::create_dir_all(p.parent().unwrap());
+            if let Ok(mut f) = std::fs::OpenOptions::new().create(true).append(true).open(&p) {
+                let _ = f.write_all(&reffmt::encode_record(&rec, reffmt::EmitStyle { ascii: false, reversed: false }));
+            }
             Out::Done
         }
         Op::ForeignRecord { bucket_of, key, addr } => {
